@@ -28,7 +28,9 @@ ASSIGNS = ["o.x = {k}", "o.x = v + {k}", "o.x = o.x + {k}", "o.x = o.x", "o.x = 
 AUG_SELF = ["o.x {a} {k}", "o.x {a} v", "o . x {a} {k}", "o.x{a}{k}", "o.x {a} o.x", "o.x {a} o2.x",
             "o.x {a} o.x + {k}", "o.x {a} max(o.x, {k})", "o.x {a} p.x", "p.x {a} o.x", "o.x {a} h.x",
             # the line reads the attribute once more, before or after the assignment
-            "if o.x > -99: o.x {a} {k}", "o.x {a} {k}; v = o.x", "v = o.x; o.x {a} {k}"]
+            "if o.x > -99: o.x {a} {k}", "o.x {a} {k}; v = o.x", "v = o.x; o.x {a} {k}",
+            # one statement written over two lines
+            "o.x \\\n    {a} {k}", "o.x {a} (\n    {k})", "(o\n  .x) {a} {k}"]
 # the attribute looked up on the class instead of an instance
 CLASSREAD = ["v = K.x", "v = getattr(K, 'x')", "v = hasattr(K, 'x')", "v = type(o).x", "v = K.x {c} {k}",
              "v = [n for n in dir(K) if getattr(K, n, None) is None]"]
@@ -44,7 +46,12 @@ COMMENTS = ["v = o.x  # total {a} 1", "v = o.x  # a {c} b", "o.x = {k}  # was: o
 ITEMS = ["o.x[0] {a} {k}", "o.x[0] = {k}", "v = o.x[0]", "o.x[-1] {a} v", "o.x[0], v = v, {k}",
          "v = o.x[0] {c} {k}", "o.x.append({k})", "v {a} o.x[0]", "o.x [0] {a} {k}"]
 
-FAMILIES = {"item": ITEMS, "read": READS, "compare": COMPARES, "assign": ASSIGNS, "aug_self": AUG_SELF,
+# code without source lines (exec, eval - and with them the interactive prompt and python -c)
+NOSOURCE = ["exec('v = o.x', {{'o': o}})", "v = eval('o.x', {{'o': o}})", "exec('o.x {a} {k}', {{'o': o}})",
+            "exec('o.x = {k}', {{'o': o}})", "v = eval('o.x {c} {k}', {{'o': o}})",
+            "exec('h.x {a} o.x', {{'o': o, 'h': h}})"]
+
+FAMILIES = {"nosource": NOSOURCE, "item": ITEMS, "read": READS, "compare": COMPARES, "assign": ASSIGNS, "aug_self": AUG_SELF,
             "aug_other": AUG_OTHER, "lockform": LOCKFORM, "comment": COMMENTS, "classread": CLASSREAD}
 
 
@@ -106,6 +113,7 @@ class C28(Prop):
           "instance of the class, o.x += p.x / p.x += o.x for an instance p of another class that declares an "
           "attribute of the same name, h.x += o.x for a plain object h whose ordinary attribute has that name), "
           "lines that read the attribute a second time before or after the assignment, "
+          "the same kinds of statement run through exec()/eval() (code without source lines, as at the interactive prompt), "
           "and reads of the attribute through the class (K.x, getattr(K, 'x'), dir). The "
           "statement is written to a real source file (miros inspects the caller's source line), "
           "compiled and executed once by the calling thread; every statement is also run inside a function that refers to 140 other names first (extended bytecode arguments). Oracle: afterwards the attribute's lock "
@@ -116,7 +124,7 @@ class C28(Prop):
   assumptions = [
     "lock ownership is observed through a counting wrapper substituted for threading.RLock in "
     "miros.thread_safe_attributes before the class is created",
-    "the statement and the attribute access are on one source line (multi-line statements are not generated)",
+    "statements are one or two source lines long",
   ]
 
   def strategy(self, tier):
